@@ -12,15 +12,15 @@ FLAG, ESC = 0x7E, 0x7D
 ST = dict(WAIT_START=0, ADDR=1, CTRL=2, DATA=3, ESCAPE=4)
 K_ESC = 'C06:escaped-address-octet'
 META = dict(
-    functions=['sercomm.c: sercomm_sendmsg', 'sercomm_drv_pull', 'sercomm_drv_rx_char', 'dispatch_rx_msg', 'sercomm_register_rx_cb', 'sercomm_init', 'sercomm_alloc_msgb',
+    functions=['osmocon.c: handle_sercomm_write (verbatim text, environment stubbed)', 'sercomm.c: sercomm_sendmsg', 'sercomm_drv_pull', 'sercomm_drv_rx_char', 'dispatch_rx_msg', 'sercomm_register_rx_cb', 'sercomm_init', 'sercomm_alloc_msgb',
                'msgb.c: msgb_alloc, msgb_free, msgb_enqueue, msgb_dequeue, msgb_reset', 'msgb.h inlines: msgb_put, msgb_push, msgb_tailroom, msgb_headroom, msgb_alloc_headroom', 'linuxlist.h: llist_add_tail, llist_del, llist_empty'],
     bounds=dict(quick='(a) per-octet transparency, one inductive step: transmitter in the middle of a message whose next octet is symbolic, receiver in DATA state with fill level in {0, 1, size-2}: all 256 octet values; '
                       '(b) whole frames: 1..2 messages with payload length 0..2, every payload octet symbolic (each escape pattern - octet in {0x7E,0x7D,0x00} or not - is a separate job, values stay symbolic inside the class), DLCIs from {0, 4, 5, 10, 125, 126, 128} (one DLCI or two different ones), everything pulled and fed to a receiver with recording handlers; '
-                      '(c) overflow: receive buffer with tailroom 0 or 1, every receiver state, symbolic octet; continuation: closing flag of the over-long frame + two short frames; both buffer sizes (2048 host build, 256 firmware build)',
+                      '(c2) noise: receiver waiting for a frame, 1..3 arbitrary non-flag octets (0x7D and 0x00 included), then two frames with symbolic payload: both delivered intact and in order; (c) overflow: receive buffer with tailroom 0 or 1, every receiver state, symbolic octet; continuation: closing flag of the over-long frame + two short frames; both buffer sizes (2048 host build, 256 firmware build)',
                 thorough='(b) up to 3 messages, payload length 0..3; (a) every fill level of the 256-octet firmware buffer symbolic'),
     stubs=['_talloc_zero -> fresh zeroed object of the requested size; talloc_free -> object marked dead (use after free / double free become obligations)', 'osmo_panic -> reaching it is a violation',
            'uart_irq_enable, IRQ save/restore (firmware build) -> empty', 'DLCI handlers -> recording stub'],
-    outside=['payloads longer than 3 octets in whole-frame runs (the per-octet step covers any length by induction)', 'interleavings of sendmsg and pull from interrupt contexts', 'noise octets between frames other than the continuation scenario of (c)'],
+    outside=['payloads longer than 3 octets in whole-frame runs (the per-octet step covers any length by induction)', 'interleavings of sendmsg and pull from interrupt contexts', 'more than 3 noise octets between frames (c)'],
     assumptions=['by induction over the octets of a frame, (a) gives: every payload octet is emitted as [b] or [0x7D, b^0x20], never as an unescaped 0x7E/0x00, and received as exactly b'],
     explanation='sercomm.c and msgb.c from the working tree are compiled to one LLVM IR module and executed symbolically with a heap of msgb objects; handler invocations are recorded with their guards; every memory access carries a bounds/liveness obligation')
 
@@ -37,6 +37,8 @@ def jobs(tier, seed):
             for room in (0, 1):
                 out.append(('overflow.%s.%s.room=%d' % (build, state, room), 'c_overflow', dict(build=build, state=state, room=room)))
         out.append(('resync.%s' % build, 'c_resync', dict(build=build)))
+        for nn in (1, 2, 3):
+            out.append(('noise.%s.n=%d' % (build, nn), 'c_noise', dict(build=build, nn=nn)))
     dl = [0, 4, 5, 10, 125, 126, 128]
     maxlen = 3 if tier == 'thorough' else 2
     special = {0, 125, 126}
@@ -53,6 +55,7 @@ def jobs(tier, seed):
     if tier == 'thorough':
         for pat in pats(4):
             out.append(('frames.three.%s' % pat, 'c_frames', dict(msgs=[[5, 1], [4, 2], [5, 1]], pattern=pat)))
+    out.append(('osmocon.write', 'c_osmocon_write', {}))
     out.append(('validation', 'c_validate', dict(seed=seed)))
     return out
 
@@ -283,6 +286,108 @@ def c_resync(hid, build, timeout_ms=60000):
     return j.stats
 
 
+def c_noise(hid, build, nn, timeout_ms=60000):
+    """flag-free noise between frames is ignored: receiver waiting for a frame start, nn arbitrary octets other than the flag
+    (escape 0x7D and 0x00 included), then two frames with symbolic payload octets: both are delivered intact, in order"""
+    env = Env(hid, build, timeout_ms); j, ex, L = env.j, env.ex, env.L
+    env.set_cell('g:@sercomm', L.rxstate, 4, C(ST['WAIT_START']))
+    for d in (4, 5): env.register(d)
+    def feed(v): env.call('@sercomm_drv_rx_char', [v if isinstance(v, V) else C(v)])
+    for k in range(nn):
+        v = j.var(ex, 'noise%d' % k, 0, 255); ex.assumes.append(v.e != FLAG); feed(v)
+    def plain(name):
+        v = j.var(ex, name, 0, 255); ex.assumes.append(z3.And(v.e != FLAG, v.e != ESC)); return v
+    a1 = plain('f1.payload'); a2 = plain('f2.payload0'); a3 = plain('f2.payload1')
+    for v in (FLAG, 4, 3, a1, FLAG): feed(v)
+    for v in (FLAG, 5, 3, a2, a3, FLAG): feed(v)
+    j.witness(ex, [])
+    j.memory_obligations(ex, [])
+    new = env.delivered
+    cnt = z3.Sum([z3.If(g if g is not True else z3.BoolVal(True), 1, 0) for g, dl, sn in new]) if new else z3.IntVal(0)
+    j.must_hold(ex, 'both-frames-delivered', [], cnt == 2)
+    want = [(4, [a1]), (5, [a2, a3])]
+    # deliveries are recorded in program order; the k-th delivery that happens must be the k-th frame
+    seen = z3.IntVal(0)
+    for k, (g, dl, sn) in enumerate(new):
+        gg = g if g is not True else z3.BoolVal(True)
+        for wi, (wd, wp) in enumerate(want):
+            at = z3.And(gg, seen == wi)
+            j.must_hold(ex, 'delivery[%d]-as-frame%d.dlci' % (k, wi + 1), [], z3.Implies(at, dl.e == wd))
+            for sg, obj, ln, db in sn:
+                j.must_hold(ex, 'delivery[%d]-as-frame%d.len' % (k, wi + 1), [], z3.Implies(at, ln.e == len(wp)))
+                if len(db) >= len(wp):
+                    j.must_hold(ex, 'delivery[%d]-as-frame%d.payload' % (k, wi + 1), [], z3.Implies(at, z3.And(*[(db[i].e == wp[i].e) if db[i] is not None else z3.BoolVal(False) for i in range(len(wp))])))
+        seen = seen + z3.If(gg, 1, 0)
+    j.stats.extra['ir_steps'] = ex.steps
+    return j.stats
+
+
+OSMOCON_C = os.path.join(cjob.REPO, 'src/host/osmocon/osmocon.c')
+OSMOCON_PRE = r"""
+#include <stdint.h>
+#include <stddef.h>
+typedef long ssize_t;
+struct osmo_fd { int fd; };
+static struct { struct osmo_fd serial_fd; } dnload;
+uint8_t vf_stream[320]; int vf_n; int vf_pulled;
+uint8_t vf_out[320]; int vf_written; int vf_disabled; int vf_short; int vf_writes;
+int sercomm_drv_pull(uint8_t *ch) { if (vf_pulled >= vf_n) return 0; *ch = vf_stream[vf_pulled]; vf_pulled++; return 1; }
+/* records the whole 256-octet chunk buffer and the count (octets beyond the count are never looked at) */
+ssize_t write(int fd, const void *buf, size_t n) { size_t k; for (k = 0; k < 256; k++) vf_out[k] = ((const uint8_t *)buf)[k]; vf_written += n; vf_writes++; return n; }
+void perror(const char *s) { vf_short = 1; }
+void osmo_fd_write_disable(struct osmo_fd *fd) { vf_disabled = 1; }
+"""
+
+
+def osmocon_src():
+    """handle_sercomm_write() verbatim from the working tree (brace matching) behind stubs of its environment"""
+    src = open(OSMOCON_C).read()
+    i = src.index('static int handle_sercomm_write(void)')
+    k = src.index('{', i); depth = 0
+    for q in range(k, len(src)):
+        if src[q] == '{': depth += 1
+        elif src[q] == '}':
+            depth -= 1
+            if depth == 0: body = src[i:q + 1]; break
+    return OSMOCON_PRE + body + '\nint vf_entry(void) { return handle_sercomm_write(); }\n'
+
+
+def c_osmocon_write(hid, timeout_ms=60000):
+    """osmocon's drain routine (the host-side transmitter of the same framing): with N octets pending in sercomm (N symbolic 0..300,
+    every octet symbolic) one call writes exactly the first min(N, 256) octets, in order, and pulls no octet it does not write;
+    polling for writability is switched off only when sercomm ran dry"""
+    import tempfile
+    j = cjob.CJob(hid, timeout_ms)
+    with tempfile.TemporaryDirectory(prefix='vf_c06o_') as td:
+        pth = os.path.join(td, 'osmocon_write.c'); open(pth, 'w').write(osmocon_src())
+        M = llsym.parse_module(llsym.compile_ir(pth, []))
+    ex = Exec(M, max_iter=330)
+    n = j.var(ex, 'n', 0, 300)
+    stream = [j.var(ex, 'stream[%d]' % k, 0, 255) for k in range(258)]
+    mem = {'g:@vf_stream': {k: (1, stream[k] if k < 258 else C(0)) for k in range(320)}, 'g:@vf_n': {0: (4, n)}}
+    out = ex.run('@vf_entry', [], mem)
+    j.witness(ex, [])
+    j.stats.extra['ir_steps'] = ex.steps
+    j.memory_obligations(ex, [])
+    if j.stats.failures: return j.stats
+    g = lambda name: out.mem[name] if name in out.mem else ex.ginit.get(name, {})
+    rd = lambda name: (g(name).get(0) or (4, C(0)))[1]
+    pulled, written, disabled = rd('g:@vf_pulled'), rd('g:@vf_written'), rd('g:@vf_disabled')
+    j.must_hold(ex, 'every-pulled-octet-is-written', [], pulled.e == written.e)
+    j.must_hold(ex, 'writes-min(N,256)-octets', [], written.e == z3.If(n.e < 256, n.e, 256))
+    oc = g('g:@vf_out')
+    conds = []
+    for k in range(257):
+        c = oc.get(k)
+        val = c[1] if c is not None else C(0)
+        conds.append(z3.Implies(written.e > k, val.e == stream[k].e))
+    for lo in range(0, 257, 64):
+        j.must_hold(ex, 'out[%d..%d]==stream[%d..%d]' % (lo, min(lo + 63, 256), lo, min(lo + 63, 256)), [], z3.And(*conds[lo:lo + 64]))
+    j.must_hold(ex, 'poll-disabled=>sercomm-ran-dry', [], z3.Implies(disabled.e == 1, pulled.e == n.e))
+    j.must_hold(ex, 'dry-within-the-buffer=>poll-disabled', [], z3.Implies(n.e < 256, disabled.e == 1))
+    return j.stats
+
+
 def c_frames(hid, msgs, pattern, timeout_ms=60000):
     """(b) whole frames: sendmsg for each message, pull everything, feed the receiver, compare deliveries.
     `pattern` fixes for every payload octet whether it is one of the three octets that need escaping ('s': 0x7E, 0x7D, 0x00)
@@ -418,6 +523,28 @@ def replay(body):
         if big: return 1, 'REPRODUCED on native build: an over-long frame of %s octets was delivered' % big[0][1]
         if not any(g == ('5', '1') for g in got): return 1, 'REPRODUCED on native build: reception did not resynchronise: %s' % got
         return 0, 'native build discards the frame and resynchronises: %s' % got
+    if fn == 'c_osmocon_write':
+        n = i.get('n', 0); st = [i.get('stream[%d]' % k, 0) for k in range(258)] + [0] * 62
+        drv = osmocon_src() + '#include <stdio.h>\n#include <stdlib.h>\nint main(int argc, char **argv) { vf_n = atoi(argv[1]); for (int k = 0; k < 320 && k + 2 < argc; k++) vf_stream[k] = atoi(argv[k + 2]); vf_entry(); printf("pulled %d written %d disabled %d :", vf_pulled, vf_written, vf_disabled); for (int k = 0; k < vf_written && k < 320; k++) printf(" %d", vf_out[k]); printf("\\n"); return 0; }\n'
+        rc, out = cjob.run_native(drv, None, [], args=[n] + st)
+        if rc is None: return 2, out
+        if rc != 0: return 1, 'REPRODUCED on native build (ASan/UBSan): %s' % out[-500:]
+        m = re.search(r'pulled (\d+) written (\d+) disabled (\d+) :((?: \d+)*)', out)
+        pulled, written, dis = int(m.group(1)), int(m.group(2)), int(m.group(3)); data = [int(x) for x in m.group(4).split()]
+        w = min(n, 256)
+        ok = pulled == written == w and data == st[:w] and (not dis or pulled == n) and (n >= 256 or dis)
+        return (0, 'native agrees') if ok else (1, 'REPRODUCED on native build: %d octets pending: pulled %d, wrote %d (%s), poll disabled %d' % (n, pulled, written, 'in order' if data == st[:written] else 'content differs', dis))
+    if fn == 'c_noise':
+        if sh['build'] != 'host': return 0, 'firmware-size variant has no native build (inline ARM assembly); see the host-size twin'
+        a1, a2, a3 = i.get('f1.payload', 1), i.get('f2.payload0', 1), i.get('f2.payload1', 1)
+        sc = ['reg', 4, 'reg', 5]
+        for k in range(sh['nn']): sc += ['rx', i.get('noise%d' % k, 0)]
+        for v in (FLAG, 4, 3, a1, FLAG, FLAG, 5, 3, a2, a3, FLAG): sc += ['rx', v]
+        rc, out = native(sc)
+        if rc != 0: return 1, 'REPRODUCED on native build (ASan/UBSan): %s' % out[-500:]
+        got = [(int(a), [int(x) for x in c.split()]) for a, b, c in re.findall(r'RX (\d+) (\d+)((?: \d+)*)', out)]
+        want = [(4, [a1]), (5, [a2, a3])]
+        return (1, 'REPRODUCED on native build: noise %s then frames %s, delivered %s' % ([i.get('noise%d' % k, 0) for k in range(sh['nn'])], want, got)) if got != want else (0, 'native delivers both frames')
     return 0, 'no native replay for %s' % fn
 
 
